@@ -163,3 +163,19 @@ Proof. induction 1 as [|x r H _ IH]; cbn [mapM]; [reflexivity|]. now rewrite H, 
 Lemma on_key_get {B} key (f : json -> result B) d l :
   on_key key f d l = match obj_get key l with Some v => f v | None => d end.
 Proof. induction l as [|[k v] r IH]; cbn [on_key obj_get]; [reflexivity|]. destruct (bytes_eqb k key); auto. Qed.
+
+(* ---------- a size measure for well-founded arguments over the nested type ---------- *)
+Fixpoint jsize (j : json) : nat :=
+  match j with
+  | JArr l => S ((fix go (l : list json) : nat := match l with [] => 0%nat | x :: r => (jsize x + go r)%nat end) l)
+  | JObj l => S ((fix go (l : list (bytes * json)) : nat := match l with [] => 0%nat | (_, v) :: r => (jsize v + go r)%nat end) l)
+  | _ => 1%nat
+  end.
+Lemma jsize_arr_in x l : In x l -> (jsize x < jsize (JArr l))%nat.
+Proof.
+  cbn [jsize]. induction l as [|y r IH]; [intros []|]. intros [->|H]; [lia|]. specialize (IH H). lia.
+Qed.
+Lemma jsize_obj_in k v l : In (k, v) l -> (jsize v < jsize (JObj l))%nat.
+Proof.
+  cbn [jsize]. induction l as [|[k' y] r IH]; [intros []|]. intros [[= -> ->]|H]; [lia|]. specialize (IH H). lia.
+Qed.
